@@ -275,7 +275,7 @@ func queryFace(face *font.Face, ld *ot.Loader, r *runner) {
 	glyphs := glyphSet(n)
 
 	// --- cmap: lookups + bounded iteration
-	var first, spread []rune
+	var first, spread, long []rune
 	r.do("cmap", func() {
 		for _, ch := range probeRunes {
 			g, ok := ft.Cmap.Lookup(ch)
@@ -303,6 +303,13 @@ func queryFace(face *font.Face, ld *ot.Loader, r *runner) {
 		if len(seen) > 0 {
 			for k := 0; k < 8; k++ {
 				spread = append(spread, seen[(k*len(seen))/8])
+			}
+		}
+		// a longer run of consecutive cmap entries (contextual lookups of the test fonts need
+		// their neighbours): up to 64 runes
+		for _, ch := range seen {
+			if ch >= 0x20 && len(long) < 64 {
+				long = append(long, ch)
 			}
 		}
 		for _, ch := range first {
@@ -412,7 +419,7 @@ func queryFace(face *font.Face, ld *ot.Loader, r *runner) {
 	// --- shaping: one harfbuzz shape (two strings), one shaping.HarfbuzzShaper.Shape
 	r.do("harfbuzz.Shape", func() {
 		hf := harfbuzz.NewFont(face)
-		for k, text := range [][]rune{first, spread} {
+		for k, text := range [][]rune{first, spread, long} {
 			if len(text) == 0 {
 				continue
 			}
